@@ -198,8 +198,15 @@ func (e *Enc) instr(fr *Frame, b *ssa.BasicBlock, in ssa.Instruction, st *State)
 				label = "panic " + c.Value.ExactString()
 			}
 		}
+		if strings.Contains(label, "iterator call did not preserve panic") || strings.Contains(label, "range function continued iteration") || strings.Contains(label, "yield function called after range loop exit") {
+			// compiler-generated guards of the range-over-func lowering: they fire only if the iterator function
+			// violates the iteration protocol
+			e.modelled("iterator functions obey the range-over-func protocol (compiler-inserted protocol panics not checked)")
+			fr.panics = append(fr.panics, st.reach)
+			return
+		}
 		if e.safety {
-			e.oblige("panic", label, st, tb.False(), x.Pos())
+			e.oblige("panic", label, st, tb.False(), x.Pos(), e.inputVals()...)
 		}
 		fr.panics = append(fr.panics, st.reach)
 	default:
